@@ -18,6 +18,12 @@ CLAIMED = {
  "C06": dict(level="exploration", oracle="expected-notification model, multiset per step plus ordering rule",
    text="The notification channel is drained after every step of every simulated history and compared, as a multiset with the offline-before-online ordering rule, with what the model derived from the property expects: exactly-once online/offline/name notifications whose fields equal the tracked state. Purge runs through the real ticker in virtual time.",
    ref="DESIGN.md section 4 (C06)"),
+ "C11": dict(level="exploration", oracle="conservative holder table over decoded replies + reserved-address predicate",
+   text="Simulated DHCP clients (every transmission an explicit operation with substitutable requested-IP/server-id/xid/client-id/ciaddr/source fields) drive the real server through lossy/duplicating histories with capture toggles, foreign hosts on pool addresses, virtual-time leaps past offer and lease expiry and MinuteTicker calls, in deliberately tiny pools. Every OFFER/ACK decoded by the independent decoder is checked against a holder table that ends a holding at the earliest plausible moment, and against the reserved-address rules. Sampling of histories.",
+   ref="DESIGN.md section 4 (C11)"),
+ "C12": dict(level="exploration", oracle="per-reply conformance oracle (capture state sampled at delivery)",
+   text="Same simulated histories as C11 for all three modes and several prefix/DNS configurations: every OFFER/ACK must lie in the subnet selected by the capture state sampled when the request was delivered, carry the matching router/DNS/mask (mask before router in wire order), our server id, a lease time and the echoed xid/chaddr; an ACK must confirm the transaction's offer or the client's current unexpired lease; un-honourable requests must not be acknowledged.",
+   ref="DESIGN.md section 4 (C12)"),
 }
 
 NA = {
